@@ -424,3 +424,76 @@ Section WalletSpecProofs.
     - reflexivity.
   Qed.
 End WalletSpecProofs.
+
+(* ======================================================================================
+   The property as stated ("fails without the correct password", i.e. for every pw <> pw0) is
+   FALSE of the faithful model once the slow KDF is what scrypt really computes on: the HMAC key
+   (model/WalletSpec.hmac_key).  Witness: wallet created with "hunter2", opened with
+   "hunter2\0"; on that handle the NUL-padded password exports the MDK and deletes keys while the
+   creation password itself is refused (finding c46_password_trailing_nul; replayed on the real
+   code by the harness in every run). *)
+Definition w_pw0 : bytes := [104; 117; 110; 116; 101; 114; 50].          (* "hunter2" *)
+Definition w_pw : bytes := w_pw0 ++ [0].
+Definition w_tabs : tabs := mkTabs [] [] [].
+
+Lemma wrong_password_bytes_refuted :
+  exists (pw0 pw m nm : bytes),
+    pw <> pw0 /\
+    let s0 : cstate := create c_kdf m pw0 nm in
+    let s := fst (c_step w_tabs s0 (OInit pw)) in
+    snd (c_step w_tabs s0 (OInit pw)) = ROk /\
+    snd (c_step w_tabs s (OExportMDK pw)) = RMdk m /\
+    snd (c_step w_tabs s (ODelete [] pw)) = ROk /\
+    snd (c_step w_tabs s (ORename [1] pw)) = ROk /\
+    is_err (snd (c_step w_tabs s (OExportMDK pw0))) = true.
+Proof.
+  exists w_pw0, w_pw, [7; 7], [119]. split; [discriminate|].
+  vm_compute. repeat split; reflexivity.
+Qed.
+
+(* ---- non-vacuity: an instance meeting every hypothesis, and a run on it ---------------------- *)
+Definition ex_step := step N.eqb N.eqb N.eqb N.eqb (fun (_ : N) (i : N) => i) (fun k : N => k)
+                           (fun p : N => Some p) (fun pw : N => pw) (fun pw : N => pw) 0.
+Definition ex_ops : list (op N N N N N) :=
+  [OGenerate false; OInit 9; OInit 7; OImport 2; OImport 2; OGenerate false; OGenerate false;
+   ODelete 1 9; OExport 3 9; OExport 3 7; ODelete 1 7; OGenerate false; OExportMDK 7].
+
+Lemma ex_hypotheses :
+  (forall a b : N, N.eqb a b = true <-> a = b) /\
+  (forall (m i j : N), (fun k : N => k) ((fun (_ : N) (i : N) => i) m i) =
+                       (fun k : N => k) ((fun (_ : N) (i : N) => i) m j) -> i = j) /\
+  (forall a b : N, (fun pw : N => pw) a = (fun pw : N => pw) b -> a = b).
+Proof. split; [exact N.eqb_eq|]. split; intros; assumption. Qed.
+
+(* index 2 is imported, so the wallet generates 1, 3 and then 4; the wrong password 9 changes
+   nothing; the final state holds 2 (imported), 3, 4 *)
+Lemma ex_run :
+  let tr := gen_trace N.eqb N.eqb N.eqb N.eqb (fun (_ : N) (i : N) => i) (fun k : N => k)
+                      (fun p : N => Some p) (fun pw : N => pw) (fun pw : N => pw) 0
+                      (create (fun pw : N => pw) 5 7 0) ex_ops in
+  map (fun e => (g_idx e, g_addr e)) tr = [(1, 1); (3, 3); (4, 4)] /\
+  let s := run N.eqb N.eqb N.eqb N.eqb (fun (_ : N) (i : N) => i) (fun k : N => k)
+               (fun p : N => Some p) (fun pw : N => pw) (fun pw : N => pw) 0
+               (create (fun pw : N => pw) 5 7 0) ex_ops in
+  map (fun r => (key_addr r, key_idx r)) (keys s) = [(2, None); (3, Some 3); (4, Some 4)] /\
+  spec_wallet N N N N N N N N.eqb N.eqb N.eqb (fun (_ : N) (i : N) => i) (fun k : N => k)
+              (fun pw : N => pw) 5 7 0
+              (model_steps N N N N N N N N N.eqb N.eqb N.eqb N.eqb (fun (_ : N) (i : N) => i)
+                 (fun k : N => k) (fun p : N => Some p) (fun pw : N => pw) (fun pw : N => pw) 0
+                 (create (fun pw : N => pw) 5 7 0) ex_ops)
+  = Some (mkAcc 4 [(1, 1); (3, 3); (4, 4)] [2]).
+Proof. vm_compute. repeat split; reflexivity. Qed.
+
+(* the oracle is not vacuous either: it rejects a wallet that returns index 2 first, one that
+   accepts a wrong password, and one that lists an address twice *)
+Lemma ex_spec_rejects :
+  let sp := spec_wallet N N N N N N N N.eqb N.eqb N.eqb (fun (_ : N) (i : N) => i) (fun k : N => k)
+                        (fun pw : N => pw) 5 7 0 in
+  sp [(OGenerate false, IAddr 2, mkL 0 [2] [(2, Some 2)] [])] = None /\
+  sp [(OGenerate false, IAddr 1, mkL 0 [1] [(1, Some 1)] []);
+      (ODelete 1 9, IOk, mkL 0 [] [] [])] = None /\
+  sp [(OGenerate false, IAddr 1, mkL 0 [1] [(1, Some 1)] []);
+      (OImport 1, IAddr 1, mkL 0 [1; 1] [(1, Some 1); (1, None)] [])] = None /\
+  sp [(OImport 2, IAddr 2, mkL 0 [2] [(2, None)] []);
+      (OGenerate false, IAddr 3, mkL 0 [2; 3] [(2, None); (3, Some 3)] [])] = None.
+Proof. vm_compute. repeat split; reflexivity. Qed.
